@@ -1,17 +1,14 @@
 // C43 — (appended to varpulis-lsp/src/completion.rs)
-pub const ALPHA: [char; 6] = ['a', '.', ' ', '\n', 'é', '('];
-pub fn mkdoc(n: u8, c: [u8; 3]) -> String {
-    let mut s = String::new();
-    let mut i = 0;
-    while i < 3 { if (i as u8) < n { s.push(ALPHA[(c[i] % 6) as usize]); } i += 1; }
-    s
-}
+// every valid UTF-8 document of at most `n` bytes (n <= 3), from symbolic bytes
+pub fn doc<'a>(n: u8, b: &'a [u8; 3]) -> Option<&'a str> { if n > 3 { return None; } std::str::from_utf8(&b[..n as usize]).ok() }
+pub fn newlines(s: &str) -> usize { let mut k = 0; for c in s.bytes() { if c == b'\n' { k += 1; } } k }
+
 // completion context for every cursor position in / just past a tiny document (incl. a 2-byte character): no panic
-vpv_cell!(#[kani::unwind(24)] c43_completion_context, "C43/completion::get_completion_context/no-panic (docs <= 2 chars incl. a 2-byte char, every position)",
-  (n: u8, c: [u8; 3], line: u8, ch: u8), {
-    if n > 2 || line > 2 || ch > 4 { return true; }
-    let doc = mkdoc(n, c);
-    let ctx = get_completion_context(&doc, Position { line: line as u32, character: ch as u32 });
-    std::mem::forget(ctx); std::mem::forget(doc);
+vpv_cell!(#[kani::unwind(24)] c43_completion_context, "C43/completion::get_completion_context/no-panic (all UTF-8 docs <= 2 bytes, every position)",
+  (n: u8, b: [u8; 3], line: u8, ch: u8), {
+    if n > 2 || line > 2 || ch > 3 { return true; }
+    let Some(d) = doc(n, &b) else { return true; };
+    let ctx = get_completion_context(d, Position { line: line as u32, character: ch as u32 });
+    std::mem::forget(ctx);
     true });
 vpv_replay_table!(c43_completion_context);
